@@ -11,7 +11,9 @@ RULE = ("every (generator, width, carry flags) with adder w<=4 (quick 3), mux w<
         "int_to_bin/bin_to_int on i<2^w, i>=2^w (no truncation), w=0, both endiannesses, random tuples incl. the empty one; "
         "two-digit widths (mux 11-13, adder 11; popcount 12 by graph equality only in quick): graph equality plus the specification on a "
         "SUBSET sweep of vectors generated in Coq (mux: every select value x zero/one-hot data; adder: zero, all ones, single bits, "
-        "carry from every position) -- a test on those vectors, not a decision for all vectors; "
+        "carry from every position; popcount 5 every vector, 9/10/13: none, singles, prefixes, all, all-but-one) -- a test on those "
+        "vectors, not a decision for all vectors; sessions: several generator calls in one process in both orders, each generator "
+        "called three times with the first result edited in between, every returned circuit judged; "
         "thorough adds graph equality at widths up to 64 and a Python simulation pre-screen (support only); "
         "non-trivial = a block with at least one gate or a helper call with a non-zero argument; distinct = (function, arguments)")
 EXPLANATION = ("adder/mux/half/full adder and the helpers proved for every width over the model; model = implementation result by graph "
@@ -57,11 +59,29 @@ def generate(rng, tier):
     # input vectors generated in Coq (mux: every select value x one-hot/zero data; adder: zero, all ones, single bits, carries)
     out += [{"fn": "mux", "w": w, "sweep": True} for w in ((11, 12, 13) if q else (11, 12, 13, 16, 17))]
     out.append({"fn": "adder", "w": 11, "ci": True, "co": True, "sweep": True})
+    # popcount: every vector at w = 5, 6 and a subset (none, singles, prefixes, all, all-but-one: the vectors that need the
+    # top output bits) at widths where an operand is carried over between levels of the adder tree
+    out += [{"fn": "popcount", "w": w, "sweep": True} for w in ((5, 9, 10, 13) if q else (5, 6, 7, 8, 9, 10, 11, 12, 13, 14, 17, 18, 21))]
     if q:
-        out.append({"fn": "popcount", "w": 12, "big": True})          # graph equality only (in_10, add_10)
+        out.append({"fn": "popcount", "w": 12, "big": True})          # graph equality (in_10, add_10); sweep only if it fails
     else:
         out.append({"fn": "adder", "w": 12, "ci": False, "co": True, "sweep": True})
-        out += [{"fn": "popcount", "w": w, "sweep": True} for w in (11, 12)]
+    # several calls in ONE process, both orders, every generator called three times with the first result edited in between
+    A1, A2 = ["adder", 1, False, True], ["adder", 2, False, True]
+    out.append({"fn": "session", "calls": [["popcount", 3], A1, A2, ["mux", 3], ["half_adder"], ["full_adder"]]})
+    out.append({"fn": "session", "calls": [A1, A2, ["mux", 3], ["popcount", 3], A1, A2, ["adder", 2, True, False], ["mux", 3]]})
+    if not q:
+        for _ in range(6):
+            calls = []
+            for _ in range(rng.randint(3, 6)):
+                r = rng.random()
+                if r < 0.35:
+                    calls.append(["popcount", rng.randint(1, 4)])
+                elif r < 0.8:
+                    calls.append(["adder", rng.randint(0, 3), rng.random() < 0.5, rng.random() < 0.6])
+                else:
+                    calls.append(["mux", rng.randint(1, 5)])
+            out.append({"fn": "session", "calls": calls})
     if not q:
         # graph equality at large widths + simulation pre-screen
         for w in (7, 8, 13, 16, 31, 32, 33, 64):
@@ -150,6 +170,32 @@ def _sim_block(case):
     return True
 
 
+def _session_call(call):
+    """one generator called three times in this process: first result, then (after EDITING the first result) the second
+    result as it is now, and a third, fresh call.  All three must be the block the generator names."""
+    import circuitgraph as cg
+    f = getattr(cg.logic, call[0])
+    args = call[1:]
+    res = {"dumps": [], "same_object": None}
+    try:
+        r1 = f(*args)
+        res["dumps"].append(lib.dump_circuit(r1))
+        r2 = f(*args)
+        res["same_object"] = (r1 is r2) or (r1.graph is r2.graph)
+        # edit the first result the way a user would: a new input, an output unmarked, a node renamed
+        r1.add("zz_probe", "input")
+        outs = sorted(r1.outputs())
+        if outs:
+            r1.set_output(outs[0], False)
+            r1.relabel({outs[0]: "zz_renamed"})
+        res["dumps"].append(lib.dump_circuit(r2))
+        r3 = f(*args)
+        res["dumps"].append(lib.dump_circuit(r3))
+    except Exception as e:
+        res["exc"] = type(e).__name__
+    return res
+
+
 def impl(case):
     import circuitgraph as cg
     fn = case["fn"]
@@ -173,6 +219,8 @@ def impl(case):
             return _exc(e)
     if fn == "sim":
         return {"ok": _sim_block(case)}
+    if fn == "session":
+        return {"calls": [_session_call(c) for c in case["calls"]]}
     try:
         if fn == "half_adder":
             c = cg.logic.half_adder()
@@ -220,6 +268,23 @@ def to_coq(case, obs):
         return f"CB2I {cbl(case['b'])} {cb(case['lend'])} {cres(obs, cn)}"
     if fn == "sim":
         return f"CSim {cs(case['block'])} {cnat(case['w'])} {cnat(case['vectors'])} {cb(obs['ok'])}"
+    if fn == "session":
+        terms = []
+        for call, r in zip(case["calls"], obs["calls"]):
+            sub = {"fn": call[0]}
+            if call[0] == "adder":
+                sub.update(w=call[1], ci=call[2], co=call[3])
+            elif call[0] in ("mux", "popcount"):
+                sub["w"] = call[1]
+            seen = []
+            for d in r["dumps"]:
+                if d not in seen:           # identical dumps are judged once
+                    seen.append(d)
+                    terms.append(to_coq(sub, {"out": d}))
+            if "exc" in r:
+                # an exception in the middle of a session (w >= 1 everywhere here) is a block that was not delivered
+                terms.append(f"CSim {cs(call[0])} {cnat(call[1] if len(call) > 1 else 0)} 0%nat F")
+        return "CSession [" + ";".join(t for t in terms if t) + "]"
     circ = ccirc(obs["out"]) if "out" in obs else None
     if fn == "half_adder":
         return f"CHalf {circ}" if circ else None
@@ -248,7 +313,7 @@ def nontrivial(case, obs):
         return case["i"] != 0
     if fn == "b2i":
         return any(case["b"])
-    if fn == "sim":
+    if fn in ("sim", "session"):
         return True
     return "out" in obs and any(n[3] for n in obs["out"]["nodes"])
 
@@ -257,6 +322,8 @@ def classify(case, obs):
     fn = case["fn"]
     if fn == "sim":
         return "sim:" + case["block"]
+    if fn == "session":
+        return ["session"] + (["session:shared-object"] if any(c.get("same_object") for c in obs["calls"]) else [])
     tag = fn + (":big" if case.get("big") else ":sweep" if case.get("sweep") else "")
     if isinstance(obs, dict) and "exc" in obs:
         tag += ":" + obs["exc"]
@@ -277,6 +344,8 @@ def mutate_case(rng, case):
         if c.get("sweep") and fn == "mux":
             c["w"] = rng.randint(11, 17)
             return c
+        if fn == "popcount" and (c.get("sweep") or case.get("big")):
+            return {"fn": "popcount", "w": rng.randint(5, 14), "sweep": True}
         c.pop("sweep", None)
         c["w"] = rng.randint(1, 4 if fn != "mux" else 8)
         c["ci"], c["co"] = rng.random() < 0.5, rng.random() < 0.5
